@@ -236,6 +236,8 @@ class ExprMixin(object):
         # reference (or optional / unknown)
         if base.z is None:
             raise Undecided("attribute %s of python-side value %r" % (attr, base))
+        if attr == "__class__":
+            return st, SV(None, "classof", py=base)       # every value has a class, None included
         if base.kind != "ref":
             if not self.in_spec:
                 self.oblige(st, "deref", self.auto_label(node, "deref"),
@@ -669,7 +671,11 @@ class ExprMixin(object):
             s1 = st.copy()
             s1.assume(z3.Not(go_on))
             merged = self.merge([s2, s1])
-            tails_val = self.merge_sv_pair(go_on, v2, cur)
+            kept = cur
+            if not is_and and cur is not POISON and cur.kind is None and cur.extra and cur.extra[0] == "opt" and cur.extra[1]:
+                # `x or default`: x is only the result when it is truthy, hence not None -> its declared type
+                kept = self.typed(cur.z, cur.extra[1])
+            tails_val = self.merge_sv_pair(go_on, v2, kept)
             for f in self._pending_facts:       # facts about python-side operands made opaque by merge_sv_pair
                 merged.assume(f)
             del self._pending_facts[:]
